@@ -101,6 +101,8 @@ func applyBasmFlags(bi *basm.BasmInstance, flags []string) error {
 			bi.Activate(bmconfig.ChooserMinWordSize)
 		case "-chooser-force-same-name":
 			bi.Activate(bmconfig.ChooserForceSameName)
+		case "-co", "-oprefix":
+			i++ // output names: handled by assembleOnce
 		case "-activate-passes":
 			i++
 			if err := bi.SetActive(flags[i]); err != nil {
@@ -161,7 +163,21 @@ func assembleOnce(files []SrcFile, flags []string) (arte map[string]string) {
 		return
 	}
 	if bi.IsClustered() {
-		arte["error"] = "clustered"
+		// cmd/basm/main.go:318-354 (`-co cluster.json -oprefix edge`)
+		phase = "cluster"
+		if err := bi.Assembler2Cluster(); err != nil {
+			arte["error"] = "cluster: " + err.Error()
+			return
+		}
+		if b, err := json.Marshal(bi.GetCluster()); err == nil {
+			arte["cluster.json"] = string(b)
+		}
+		for _, id := range bi.GetClusteredName() {
+			arte[fmt.Sprintf("edge%d.bmeta", id)] = bi.GetClusteredBondMachines()[id]
+			if b, err := json.Marshal(bi.GetClusteredMaps()[id]); err == nil {
+				arte[fmt.Sprintf("edge%d_maps.json", id)] = string(b)
+			}
+		}
 		return
 	}
 	phase = "create"
